@@ -285,6 +285,7 @@ func (cf *CloudflarePublisher) getZoneData(ctx context.Context, zone string, dat
 			} `json:"result"`
 			ResultInfo struct {
 				Count      int `json:"count"`
+				TotalCount int `json:"total_count"`
 				Page       int `json:"page"`
 				PerPage    int `json:"per_page"`
 				TotalPages int `json:"total_pages"`
@@ -299,7 +300,7 @@ func (cf *CloudflarePublisher) getZoneData(ctx context.Context, zone string, dat
 		for _, r := range result.Result {
 			data[zoneName{zone, r.Name}] = idData{zoneID, r.ID, r.Data}
 		}
-		if len(result.Result) == 0 || result.ResultInfo.Page >= result.ResultInfo.TotalPages || result.ResultInfo.Page*result.ResultInfo.PerPage >= result.ResultInfo.Count {
+		if len(result.Result) == 0 || result.ResultInfo.Page >= result.ResultInfo.TotalPages || result.ResultInfo.Page*result.ResultInfo.PerPage >= result.ResultInfo.TotalCount {
 			break
 		}
 	}
